@@ -14,6 +14,7 @@
 package jsonrpc
 
 import (
+	"encoding/json"
 	"errors"
 	"sync/atomic"
 
@@ -43,40 +44,38 @@ func (c *ClientCodec) Encode(name string, args []interface{}, context *core.Clie
 }
 
 func (c *ClientCodec) Decode(response []byte, context *core.ClientContext) (result []interface{}, err error) {
-	var resp Response
+	var resp rawResponse
 	if err = c.Codec.Unmarshal(response, &resp); err != nil {
 		return
 	}
 	if resp.Headers != nil {
 		core.NewDict(resp.Headers).CopyTo(context.ResponseHeaders())
 	}
-	if resp.Result != nil {
+	if len(resp.Result) > 0 && string(resp.Result) != "null" {
 		switch n := len(context.ReturnType); n {
 		case 0:
 		case 1:
-			data, _ := c.Codec.Marshal(resp.Result)
 			t := reflect2.Type2(context.ReturnType[0])
 			p := t.New()
-			if err = c.Codec.Unmarshal(data, p); err != nil {
+			if err = c.Codec.Unmarshal(resp.Result, p); err != nil {
 				return
 			}
 			result = []interface{}{t.Indirect(p)}
 		default:
 			// several results travel as an array; anything else is a single result, and
 			// results beyond those the caller expects are ignored.
-			res, ok := resp.Result.([]interface{})
-			if !ok {
-				res = []interface{}{resp.Result}
+			var res []json.RawMessage
+			if c.Codec.Unmarshal(resp.Result, &res) != nil {
+				res = []json.RawMessage{resp.Result}
 			}
 			if len(res) > n {
 				res = res[:n]
 			}
 			result = make([]interface{}, 0, len(res))
 			for i, r := range res {
-				data, _ := c.Codec.Marshal(r)
 				t := reflect2.Type2(context.ReturnType[i])
 				p := t.New()
-				if err = c.Codec.Unmarshal(data, p); err != nil {
+				if err = c.Codec.Unmarshal(r, p); err != nil {
 					return
 				}
 				result = append(result, t.Indirect(p))
